@@ -8,7 +8,7 @@ CONSTANTS
   MaxRuns = 1000000
   MaxTrig = 1000000
   MaxExt = 1000000
-  MaxSw = 0
+  MaxSw = 1000000
   ResetCfgs <- NoCfgs
   MaxAdv = 1000000
   Fixes <- RepoFixes
